@@ -12,6 +12,7 @@ go build ./... || { echo "$R-$K BUILD-FAIL"; exit 1; }
 (cd slog && go build -tags verbose ./... && go build -tags hint ./...) || { echo "$R-$K TAG-BUILD-FAIL"; exit 1; }
 suite=$(/verif/scripts/run_suite.sh $WT | head -1)
 echo "$R-$K suite=[$suite]"
-if [ "$suite" = "passed 155 failed 0" ]; then
+np=$(echo "$suite" | awk '{print $2}'); nf=$(echo "$suite" | awk '{print $4}')
+if [ "${nf:-1}" = "0" ] && [ "${np:-0}" -ge 155 ]; then
   D=/verif/benign/$R-$K; mkdir -p $D; cp $SRC/patch$K.diff $D/patch.diff; cp $SRC/notes$K.md $D/notes.md
 fi
